@@ -10,6 +10,7 @@ import (
 // C19.verify / C19.bind).
 func c19Round3(c *Ctx) {
 	c19LightBlockHeight(c)
+	c19MetaTxSigned(c)
 	c19MalformedResults(c)
 	const pk = "consensus/cometbft/stateless"
 	// the caches of verified hashes are filled only with what a verified header says: a value enters the results-hash
@@ -94,6 +95,18 @@ func c19MalformedResults(c *Ctx) {
 		}
 		c.GuardedByAny("C19.verify", fn, "len(responses) == len(txs)", []string{`^builtin\.len\(param:responses\) == builtin\.len\(param:txs\)$`}, Ev{Name: "txs[idx]", Fn: fn, Ins: idx}, "the transactions are indexed by result position only when there are as many results as transactions (at the latest height the results are not verified and a provider can send surplus ones)")
 	}
+}
+
+// c19MetaTxSigned (F50): the state root taken from a block's metadata transaction comes from a transaction whose
+// signature was verified: stateRootFromMetaTx succeeds only through SignedTransaction.Open (a look-alike metadata
+// transaction with an invalid signature is an ordinary failed transaction for the validators and may sit in a valid block).
+func c19MetaTxSigned(c *Ctx) {
+	fn := c.needFn("C19.state", "consensus/cometbft/stateless.stateRootFromMetaTx")
+	if fn == nil {
+		return
+	}
+	open := CallsTo(fn, "sigTx.Open", fnSTOpen, "")
+	c.successOnlyVia("C19.state", fn, open, "the block metadata transaction a state root is read from is correctly signed")
 }
 
 func c20Round3(c *Ctx, ix *Index) {
